@@ -15,13 +15,13 @@ use std::sync::Mutex;
 
 /// (root fen, path depth quick, path depth thorough)
 const PATH_ROOTS: &[(&str, usize, usize)] = &[
-    ("8/8/k7/p7/P7/K7/8/8 w - - 0 1", 8, 10),      // blocked pawns: only king moves, tiny branching
-    ("7k/8/8/8/8/8/8/K7 w - - 0 1", 6, 7),         // bare kings
-    ("7k/8/8/8/8/8/R7/K7 w - - 0 1", 4, 5),        // KRK
-    ("4k3/8/8/8/8/8/8/4K2R w K - 0 1", 4, 5),      // a castling right to lose: equal placements, different positions
-    ("4k3/8/8/8/8/8/4P3/4K3 w - - 0 1", 5, 6),     // an en-passant target separates otherwise equal placements
-    ("4k3/4p3/8/8/8/8/4P3/4K3 w - - 0 1", 4, 5),
-    ("6k1/8/8/8/8/8/8/1N4K1 w - - 0 1", 4, 5),     // K+N vs K
+    ("8/8/k7/p7/P7/K7/8/8 w - - 0 1", 9, 11),      // blocked pawns: only king moves, tiny branching
+    ("7k/8/8/8/8/8/8/K7 w - - 0 1", 7, 8),         // bare kings
+    ("7k/8/8/8/8/8/R7/K7 w - - 0 1", 5, 6),        // KRK
+    ("4k3/8/8/8/8/8/8/4K2R w K - 0 1", 5, 6),      // a castling right to lose: equal placements, different positions
+    ("4k3/8/8/8/8/8/4P3/4K3 w - - 0 1", 6, 7),     // an en-passant target separates otherwise equal placements
+    ("4k3/4p3/8/8/8/8/4P3/4K3 w - - 0 1", 5, 6),
+    ("6k1/8/8/8/8/8/8/1N4K1 w - - 0 1", 5, 6),     // K+N vs K
     ("r3k3/8/8/8/8/8/8/4K2R b Kq - 0 1", 3, 4),
 ];
 
